@@ -211,6 +211,15 @@ func (r *RootExpr) Validate() error {
 	if r.API == nil {
 		verr.Add(r, "Missing API declaration")
 	}
+	seen := make(map[*ResultTypeExpr]struct{})
+	for _, rt := range r.ResultTypes {
+		// generated result types may be listed more than once
+		if _, ok := seen[rt]; ok {
+			continue
+		}
+		seen[rt] = struct{}{}
+		verr.Merge(rt.validateExplicitView())
+	}
 	return &verr
 }
 
